@@ -232,7 +232,7 @@ func loadDeb2(archive map[string]*ArEntry) (*Deb, error) {
 func findDeb2Member(archive map[string]*ArEntry, prefix string) (*ArEntry, error) {
 	var found *ArEntry
 	for _, member := range archive {
-		if !strings.HasPrefix(member.Name, prefix) {
+		if member == nil || !strings.HasPrefix(member.Name, prefix) {
 			continue
 		}
 		if found != nil {
